@@ -125,13 +125,14 @@ Section Agree.
   Variable fmt : bytes -> option bytes.
   Variable G : tags.
   Variable o : Det.oracle.
+  Variable rk : pkginfo -> bytes -> nat.
   Variable a : args.
   Variable w : world.
   Hypothesis Hw : world_wf w.
   Hypothesis Hs : Det.shuffles o.
   Hypothesis Hnat : natural o.
 
-  Let E := whole_env fmt (order_of o) G.
+  Let E := whole_env fmt (order_of o) rk G.
   Notation o' := (only_gfs o).
   Notation a' := (det_args G a).
 
@@ -467,8 +468,8 @@ Section Agree.
     rewrite <- (map_map snd Det.ERemove). rewrite <- (map_map (fun f => (pk_dir p, f)) ERemove).
     apply erel_removes. intros q. rewrite !in_map_iff. split.
     - intros [[k v] [<- Hkv]]. cbn [snd]. rewrite (Hv k v Hkv). exists k. split; [reflexivity|].
-      apply Hk. apply in_map_iff. exists (k, v). split; [reflexivity | exact Hkv].
-    - intros [k [<- Hkr]]. apply Hk in Hkr. apply in_map_iff in Hkr. destruct Hkr as [[k' v] [Hk' Hkv]]. cbn in Hk'. subst k'.
+      apply (proj2 (rank_sort_In (e_rm_rank E p) rem k)). apply Hk. apply in_map_iff. exists (k, v). split; [reflexivity | exact Hkv].
+    - intros [k [<- Hkr]]. apply (proj1 (rank_sort_In (e_rm_rank E p) rem k)) in Hkr. apply Hk in Hkr. apply in_map_iff in Hkr. destruct Hkr as [[k' v] [Hk' Hkv]]. cbn in Hk'. subst k'.
       exists (k, v). split; [cbn [snd]; apply (Hv k v Hkv) | exact Hkv].
   Qed.
 
@@ -615,19 +616,19 @@ Section Agree.
 End Agree.
 
 (* ---------- corollary A: C04's order independence, OF Pipeline.exec ---------- *)
-Theorem pipeline_order_independent : forall fmt G (o1 o2 : Det.oracle) a w gens s,
+Theorem pipeline_order_independent : forall fmt G (o1 o2 : Det.oracle) rk1 rk2 a w gens s,
   world_wf w -> Det.shuffles o1 -> Det.shuffles o2 -> natural o1 -> natural o2 ->
   NoDup (D.keys G) -> NoDup (map g_name gens) ->
-  let E1 := whole_env fmt (order_of o1) G in
-  let E2 := whole_env fmt (order_of o2) G in
+  let E1 := whole_env fmt (order_of o1) rk1 G in
+  let E2 := whole_env fmt (order_of o2) rk2 G in
   (exec_outcome E1 a w gens s = Done <-> exec_outcome E2 a w gens s = Done)
   /\ (exec_outcome E1 a w gens s = Done ->
       (forall q, fs_lookup q (exec_fs E1 a w gens s) = fs_lookup q (exec_fs E2 a w gens s))
       /\ flat_trace (exec_trace E1 a w gens s) = flat_trace (exec_trace E2 a w gens s)).
 Proof.
-  intros fmt G o1 o2 a w gens s Hw Hs1 Hs2 Hn1 Hn2 HG Hgn E1 E2.
-  pose proof (det_agree fmt G o1 a w Hw Hs1 Hn1 gens Hgn s) as H1.
-  pose proof (det_agree fmt G o2 a w Hw Hs2 Hn2 gens Hgn s) as H2.
+  intros fmt G o1 o2 rk1 rk2 a w gens s Hw Hs1 Hs2 Hn1 Hn2 HG Hgn E1 E2.
+  pose proof (det_agree fmt G o1 rk1 a w Hw Hs1 Hn1 gens Hgn s) as H1.
+  pose proof (det_agree fmt G o2 rk2 a w Hw Hs2 Hn2 gens Hgn s) as H2.
   fold E1 in H1. fold E2 in H2.
   assert (Hwa : TP.wf_args (det_args G a)).
   { unfold TP.wf_args. cbn [det_args Det.a_globals]. fold (Det.keys (dt G)). rewrite keys_dt. exact HG. }
@@ -650,6 +651,7 @@ Section Transfer.
   Variable fmt : bytes -> option bytes.
   Variable G : tags.
   Variable o : Det.oracle.
+  Variable rk : pkginfo -> bytes -> nat.
   Variable a : args.
   Variable w : world.
   Hypothesis Hw : world_wf w.
@@ -658,7 +660,7 @@ Section Transfer.
   Variable gens : list generator.
   Hypothesis Hgn : NoDup (map g_name gens).
   Variable s : fs.
-  Let E := whole_env fmt (order_of o) G.
+  Let E := whole_env fmt (order_of o) rk G.
   Let r := Det.run true true (det_render fmt) det_parse_sum (only_gfs o) (det_args G a) (w_direct w) (det_world w)
                    (map (det_gen w) gens) (det_fs s).
 
@@ -666,7 +668,7 @@ Section Transfer.
      say what such a run has and has not done *)
   Theorem det_fails_iff : r = None <-> exec_outcome E a w gens s <> Done.
   Proof.
-    pose proof (det_agree fmt G o a w Hw Hs Hnat gens Hgn s) as H. fold E in H. fold r in H.
+    pose proof (det_agree fmt G o rk a w Hw Hs Hnat gens Hgn s) as H. fold E in H. fold r in H.
     destruct r as [[f' log]|]; split; intros Hx; try discriminate Hx; try reflexivity; try exact H.
     destruct H as [Hd _]. contradiction.
   Qed.
@@ -674,7 +676,7 @@ Section Transfer.
   (* C07's frame: a successful run leaves every path that is not gengo's own output as it was *)
   Theorem det_frame : forall f' log q, r = Some (f', log) -> ~ own_output E a w s q -> f' q = det_fs s q.
   Proof.
-    intros f' log q Hr Hq. pose proof (det_agree fmt G o a w Hw Hs Hnat gens Hgn s) as H. fold E in H. fold r in H.
+    intros f' log q Hr Hq. pose proof (det_agree fmt G o rk a w Hw Hs Hnat gens Hgn s) as H. fold E in H. fold r in H.
     rewrite Hr in H. destruct H as [_ [Hf _]]. rewrite Hf. unfold det_fs. apply frame. exact Hq.
   Qed.
 End Transfer.
